@@ -41,6 +41,7 @@ class Shard:
         self.enumerated = 0
         self.replayed = 0
         self.nontrivial = set()
+        self.allcases = set()
         self.labels = {}
         self.counters = {}
         self.samples = []
@@ -67,8 +68,9 @@ class Shard:
             self.labels[l] = self.labels.get(l, 0) + 1
         for k, v in info.counters.items():
             self.counters[k] = self.counters.get(k, 0) + v
+        h = case_hash(info.key if info.key is not None else case)
+        self.allcases.add(h)
         if info.nontrivial:
-            h = case_hash(info.key if info.key is not None else case)
             if h not in self.nontrivial:
                 self.nontrivial.add(h)
                 if len(self.samples) < 4:
@@ -221,7 +223,7 @@ class Shard:
         return {
             "shard": self.shard, "evaluations": self.evaluations, "generated": self.generated,
             "enumerated": self.enumerated, "replayed": self.replayed,
-            "nontrivial": sorted(self.nontrivial), "labels": self.labels, "counters": self.counters,
+            "nontrivial": sorted(self.nontrivial), "allcases": sorted(self.allcases), "labels": self.labels, "counters": self.counters,
             "samples": samples, "known": self.known, "excluded": self.excluded,
             "violations": self.violations, "harness_error": self.harness_error,
             "skipped_budget": self.skipped_budget, "wall": round(time.time() - self.t0, 2),
@@ -235,7 +237,7 @@ def main(argv):
         res = Shard(mod, tier, seed, shard, nshards).run()
     except BaseException:
         res = {"shard": shard, "harness_error": "shard crashed:\n" + traceback.format_exc(), "evaluations": 0,
-               "nontrivial": [], "labels": {}, "counters": {}, "samples": [], "known": {}, "excluded": {},
+               "nontrivial": [], "allcases": [], "labels": {}, "counters": {}, "samples": [], "known": {}, "excluded": {},
                "violations": [], "generated": 0, "enumerated": 0, "replayed": 0, "skipped_budget": 0, "wall": 0}
     with open(out, "w") as f:
         json.dump(res, f)
